@@ -205,6 +205,10 @@ def asked_of(op):
         if op[3]:
             d["body"] = op[4]
         return [d]
+    if k == "gather":
+        return [a for sub in op[1] for a in asked_of(sub)]
+    if k == "identify_unpaired":
+        return [dict(method="POST", target=b"/identify", kind="json", value={})]
     if k == "list_accessories":
         return [dict(method="GET", target=b"/accessories", kind="none")]
     if k == "get_characteristics":
@@ -313,6 +317,8 @@ def mutate_held(obj, action, items):
 
 
 def host_kind(h):
+    if not h:
+        return "offline"
     return "v4" if ":" not in h else ("v6s" if "%" in h else "v6")
 
 
@@ -333,6 +339,12 @@ async def run_scenario(sc, acc_doc):
             conn = C.HomeKitConnection(None, list(sc["hosts"]), sc["port"])
             obj, closer, conn_obj = conn, conn.close, conn
             connect = conn.ensure_connection
+        elif sc["mode"] == "discovery":
+            # the unpaired-accessory entry point: IpDiscovery owns its own plain HomeKitConnection
+            from aiohomekit.controller.ip.discovery import IpDiscovery
+            disc = IpDiscovery(StubController(), FakeDescription(sc["hosts"], sc["port"]))
+            obj, closer, conn_obj = disc, disc.close, disc.connection
+            connect = disc._ensure_connected
         else:
             pd = dict(AccessoryPairingID=PAIRING_ID, AccessoryLTPK=keys()["acc_pub"], iOSPairingId=IOS_ID,
                       iOSDeviceLTSK=keys()["ios_sk"], iOSDeviceLTPK=keys()["ios_pub"],
@@ -343,10 +355,30 @@ async def run_scenario(sc, acc_doc):
         n0 = 0
         peers = []
         env = {}
+        conn_via = []
         for pi, ph in enumerate(sc["phases"]):
             via = ph["via"]
-            seams.reachable = {ph["reach"]}
+            seams.reachable = {ph["reach"]} if ph["reach"] else set()
             ntr = len(seams.transports)
+            resub = set(getattr(obj, "subscriptions", ()) or ()) if via != "initial" else set()
+            if via == "drop-offline":
+                # the peer closes and nothing is reachable: request() must raise and write nothing
+                if seams.transports:
+                    seams.transports[-1].peer_close()
+                await asyncio.sleep(0)
+                await asyncio.sleep(0)
+                for op in ph["ops"]:
+                    try:
+                        await asyncio.wait_for(do_op(conn_obj, op), 8)
+                        outcome = "ok"
+                    except Exception as e:  # noqa
+                        outcome = "exc:" + type(e).__name__
+                    caps = seams.captured[n0:]
+                    n0 = len(seams.captured)
+                    records.append(dict(op=op, asked=asked_of(op), outcome=outcome, requests=caps, host=None, via=via, phase=pi,
+                                        expect_exc="AccessoryDisconnectedError"))
+                peers.append(None)
+                continue
             if via == "zeroconf-change" and sc["mode"] == "secure":
                 obj.description = FakeDescription(ph["new_hosts"], sc["port"])
             if via in ("drop", "zeroconf-change"):
@@ -370,10 +402,12 @@ async def run_scenario(sc, acc_doc):
             caps = seams.captured[n0:]
             n0 = len(seams.captured)
             peers.append(ph["reach"])
+            conn_via += [via] * (len(seams.transports) - len(conn_via))
             base = dict(host=ph["reach"], via=via, phase=pi)
             if sc["mode"] == "secure" or outcome != "ok":
                 records.append(dict(op=("pair_verify",) if sc["mode"] == "secure" else ("connect",),
-                                    asked=None if sc["mode"] == "secure" else [], outcome=outcome, requests=caps, **base))
+                                    asked=None if sc["mode"] == "secure" else [], outcome=outcome, requests=caps,
+                                    resub=sorted(resub), **base))
             for op in ph["ops"]:
                 target_obj = obj
                 held = None
@@ -388,6 +422,17 @@ async def run_scenario(sc, acc_doc):
                     snap = list(held)
                     eff = (op[1], snap, type(held)) if op[1] == "get_characteristics" else (op[1], snap)
                     coro = getattr(obj, op[1])(held)
+                elif op[0] == "gather":          # several API calls in flight at once on the one live object
+                    eff = op
+                    subs = []
+                    for sub in op[1]:
+                        tgt = conn_obj if (sc["mode"] == "secure" and sub[0] in ("get", "put", "post", "put_json", "post_json",
+                                                                                   "post_tlv", "request")) else obj
+                        subs.append(do_op(tgt, sub))
+                    coro = asyncio.gather(*subs)
+                elif op[0] == "identify_unpaired":
+                    eff = op
+                    coro = obj.async_identify()
                 else:
                     eff = op
                     if sc["mode"] == "secure" and op[0] in ("get", "put", "post", "put_json", "post_json", "post_tlv", "request"):
@@ -416,9 +461,11 @@ async def run_scenario(sc, acc_doc):
         except Exception:  # noqa
             pass
         calls = [(k, len(ch), sum(len(x) for x in ch)) for tr_ in seams.transports for k, ch in tr_.calls]
-        return dict(records=records, calls=calls, leftover=leftover,
+        wire = [dict(key=acc.c2a_key, host=acc.host, calls=[ch for _, ch in tr_.calls])
+                for tr_, acc in zip(seams.transports, seams.accessories)]
+        return dict(records=records, calls=calls, leftover=leftover, wire=wire, conn_via=conn_via,
                     errors=[e for acc in seams.accessories for e in acc.errors],
-                    host_header=host_header, last_peer=(peers[-1] if peers else None), peers=peers,
+                    host_header=host_header, last_peer=([p_ for p_ in peers if p_] or [None])[-1], peers=peers,
                     connections=len(seams.transports))
     finally:
         seams.uninstall()
@@ -662,6 +709,72 @@ def gen_pollers(tier, r):
     return scs
 
 
+def gather_op(r, mode):
+    """2-5 API calls in flight at once on the one live object (real callers poll, write and subscribe concurrently)."""
+    subs = []
+    for _ in range(r.choice([2, 2, 3, 5])):
+        k = r.random()
+        if mode != "secure":
+            subs.append(r.choice([("get", r.choice(TARGETS)), ("put_json", "/characteristics", gen_value(r)),
+                                  ("post_json", "/identify", gen_value(r))]))
+        elif k < 0.4:
+            subs.append(("get_characteristics", rand_ids(r, r.choice([1, 2, 5])), r.choice([list, set])))
+        elif k < 0.7:
+            subs.append(("put_characteristics", [writable(r) + (gen_value(r),) for _ in range(r.choice([1, 2]))]))
+        elif k < 0.85:
+            subs.append((r.choice(["subscribe", "unsubscribe"]), sorted(rand_ids(r, 3))))
+        else:
+            subs.append(r.choice([("list_accessories",), ("image", r.choice(AIDS), 640, 480), ("get", "/accessories")]))
+    return ("gather", subs)
+
+
+def gen_concurrent(tier, r):
+    scs = []
+    # directed: two reads with different equal-size id sets and a write, all in flight at once
+    for hk, host in (HOSTS[1], HOSTS[4], HOSTS[8]):
+        scs.append(single("secure", host, 5001, [
+            ("list_accessories",),
+            ("gather", [("get_characteristics", [(1, 9), (1, 10)], list), ("get_characteristics", [(2, 3), (2, 9)], list),
+                        ("put_characteristics", [(1, 9, "a")])]),
+            ("gather", [("put_characteristics", [(1, 9, 1)]), ("put_characteristics", [(2, 10, 2)]),
+                        ("subscribe", [(1, 9), (2, 3)])])]))
+        scs.append(single("plain", host, 5001, [
+            ("gather", [("get", "/accessories"), ("get", "/characteristics?id=1.2"), ("put_json", "/characteristics", {"a": 1})])]))
+    for i in range(30 if tier == "quick" else 600):
+        hk, host = r.choice(HOSTS)
+        mode = "secure" if i % 2 else "plain"
+        ops = [("list_accessories",)] if mode == "secure" else []
+        for _ in range(r.choice([2, 4, 8])):
+            ops.append(gather_op(r, mode) if r.random() < 0.7 else (secure_ops(r, 1)[1] if mode == "secure" else plain_ops(r, 1)[0]))
+        scs.append(single(mode, host, r.choice([80, 5001]), ops))
+    return scs
+
+
+def gen_misc_entry(tier, r):
+    """Entry points and states no other stream reaches: the unpaired IpDiscovery.async_identify, requests issued while
+    the connection is lost and nothing is reachable (must raise, nothing written), re-subscription after a reconnect."""
+    scs = []
+    for hk, host in HOSTS:
+        scs.append(dict(mode="discovery", hosts=[host], port=r.choice([80, 5001]),
+                        phases=[dict(via="initial", reach=host, ops=[("identify_unpaired",), ("identify_unpaired",)])]))
+    for i in range(6 if tier == "quick" else 60):
+        a, b = r.sample([h for _, h in HOSTS], 2)
+        scs.append(dict(mode="plain", hosts=[a, b], port=5001,
+                        phases=[dict(via="initial", reach=a, ops=plain_ops(r, 2)),
+                                dict(via="drop", reach=b, ops=plain_ops(r, 2)),
+                                dict(via="drop-offline", reach=None, ops=[("get", r.choice(TARGETS)), ("get", "/accessories")])]))
+    pool = [(a, i) for a in AIDS for i in IIDS if i not in (1, 2)]
+    for i in range(12 if tier == "quick" else 200):
+        a, b, c = r.sample([h for _, h in HOSTS], 3)
+        subs1, subs2 = r.sample(pool, r.choice([1, 3, 6])), r.sample(pool, r.choice([1, 2, 4]))
+        scs.append(dict(mode="secure", hosts=[a, b, c], port=5001,
+                        phases=[dict(via="initial", reach=a, ops=[("list_accessories",), ("subscribe", sorted(subs1))]),
+                                dict(via=r.choice(["drop", "close-reopen"]), reach=b,
+                                     ops=[("subscribe", sorted(subs2)), ("unsubscribe", sorted(subs1)[:1])]),
+                                dict(via="drop", reach=c, ops=[("get_characteristics", subs2[:2], list)])]))
+    return scs
+
+
 def gen_scenarios(tier, r):
     scs = []
     # grid: every host x mode with a fixed op list touching every API once
@@ -680,6 +793,8 @@ def gen_scenarios(tier, r):
         scs.append(single(mode, host, r.choice([80, 5001, 51826]), ops))
     scs += gen_sessions(tier, r)
     scs += gen_pollers(tier, r)
+    scs += gen_concurrent(tier, r)
+    scs += gen_misc_entry(tier, r)
     n = 220 if tier == "quick" else 4500
     for i in range(n):
         hk, host = r.choice(HOSTS)
@@ -742,6 +857,72 @@ def extract(cap):
         except Exception:  # noqa
             pass
     return d
+
+
+def build_trace(res):
+    """The session as the model's event history: C:<peer> / S / L / X / R:<request>, and what each R must correspond to."""
+    toks, expect = [], []
+    cur, secure_on, connected = None, set(), False
+    for rec in res["records"]:
+        if rec.get("expect_exc"):
+            if rec["requests"]:
+                return None
+            if connected:
+                toks.append("L")
+                connected = False
+            for a in rec["asked"]:
+                toks.append("R:%s:%s:none:-" % (a["method"], hx(a["target"])))
+                expect.append(("raise", rec))
+            continue
+        for qi, (cap, ex) in enumerate(zip(rec["requests"], rec["ex"])):
+            if cap.conn != cur:
+                if connected:
+                    toks.append("X" if res["conn_via"][cap.conn] == "close-reopen" else "L")
+                toks.append("C:" + hx((cap.host or "").encode()))
+                cur, connected = cap.conn, True
+            if cap.secure and cap.conn not in secure_on:
+                toks.append("S")
+                secure_on.add(cap.conn)
+            if ex["method"] not in ("GET", "PUT", "POST") or not ex["target"] or b" " in ex["target"]:
+                return None
+            body = ex["body"] if ex["kind"] != "none" else b""
+            toks.append("R:%s:%s:%s:%s" % (ex["method"], hx(ex["target"]), ex["kind"], hx(body)))
+            expect.append(("cap", (cap, rec, qi)))
+    return toks, expect
+
+
+def open_frames(chunks, key, ctr0):
+    """Decrypt the items of one secure writelines call: [len0, ct0, len1, ct1, ...] -> hex of [len0, pt0, ...] or None."""
+    import struct
+    from cryptography.hazmat.primitives.ciphers.aead import ChaCha20Poly1305
+    if key is None or len(chunks) % 2:
+        return None
+    out = []
+    for j in range(0, len(chunks), 2):
+        try:
+            pt = ChaCha20Poly1305(key).decrypt(struct.pack("<LQ", 0, ctr0 + j // 2), chunks[j + 1], chunks[j])
+        except Exception:  # noqa
+            return None
+        out += [hx(chunks[j]), hx(pt)]
+    return out
+
+
+def resub_check(exs, subscribed):
+    """The PUTs connection_made(True) sends after a reconnect must re-subscribe exactly the subscribed characteristics."""
+    want = {tuple(p) for p in subscribed}
+    got = []
+    for ex in exs:
+        v = G.to_plain(ex["value"]) if ex["value_ok"] else None
+        if not (ex["method"] == "PUT" and ex["target"] == b"/characteristics" and isinstance(v, dict)
+                and list(v) == ["characteristics"] and isinstance(v["characteristics"], list)):
+            return "shape"
+        items = v["characteristics"]
+        if any(not isinstance(c, dict) or set(c) != {"aid", "iid", "ev"} or c["ev"] is not True for c in items):
+            return "shape"
+        got += [(c["aid"], c["iid"]) for c in items]
+    if set(got) != want or len(got) != len(want):
+        return "id-set"
+    return None
 
 
 def sent_host(cap) -> str:
@@ -935,7 +1116,7 @@ def run(ctx):
     for si, (sc, res) in enumerate(zip(scs, results)):
         for ri, rec in enumerate(res["records"]):
             op = rec["op"]
-            hosth = hx(rec["host"].encode())      # the address this connection was actually made to
+            hosth = hx((rec["host"] or "").encode())      # the address this connection was actually made to
             rec["peers"] = res["peers"][:rec["phase"] + 1]
             exs = [extract(c) for c in rec["requests"]]
             rec["ex"] = exs
@@ -976,6 +1157,11 @@ def run(ctx):
                     hdrs = [hx(b"Content-Length") + ":" + hx(str(len(op[4])).encode()), hx(b"Content-Type") + ":" + hx(ctv)]
                 jobs.append((si, ri, 0, "api-exact", q(" ".join(["gen", hx(op[1].encode()), hx(op[2].encode("utf-8")), hosth,
                                                                  hx(op[4] if op[3] else b"")] + hdrs)), None))
+    traces = {}
+    for si, (sc, res) in enumerate(zip(scs, results)):
+        tr = build_trace(res)
+        if tr is not None and tr[0]:
+            traces[si] = (q("sess " + " ".join(tr[0])), tr[1], tr[0])
     answers = drv.batch(lines)
 
     def replay(sc, rec, qi=None, **more):
@@ -1004,14 +1190,44 @@ def run(ctx):
         for rec in res["records"]:
             op, api = rec["op"], rec["op"][0]
             exs = rec["ex"]
+            if rec.get("expect_exc"):
+                # issued while no connection is up: the model (and the code) raise and write nothing
+                if rec["outcome"] != "exc:" + rec["expect_exc"]:
+                    add(f"disconnected-request:{api}:{rec['outcome']}", f"{api} with no connection up ended with {rec['outcome']}, "
+                        f"expected {rec['expect_exc']}", False, **replay(sc, rec))
+                if exs:
+                    add(f"written-while-disconnected:{api}", f"{api}: a request was written although the connection was lost and "
+                        f"no address is reachable", True, **replay(sc, rec))
+                continue
             if rec["outcome"] != "ok":
                 add(f"op-failed:{api}:{rec['outcome']}", f"{api} on the in-memory accessory ended with {rec['outcome']} "
                     f"(expected a normal return)", False, **replay(sc, rec))
-            if api == "pair_verify":
+            if api == "gather":
+                # concurrent calls: every request on the wire must be asked for by exactly one of them
+                remaining, asked_why = list(rec["asked"]), []
+                for ex in exs:
+                    hit = next((a for a in remaining if same_asked(a, ex) is None), None)
+                    if hit is None:
+                        asked_why.append("not-asked-by-any-concurrent-call")
+                    else:
+                        remaining.remove(hit)
+                        asked_why.append(None)
+                if remaining and rec["outcome"] == "ok":
+                    add("wrong-request:concurrent-call-request-missing:gather",
+                        f"{len(rec['op'][1])} API calls in flight at once: {len(remaining)} of the requests they ask for never "
+                        f"reached the wire (first: {remaining[0]['method']} {remaining[0].get('target', remaining[0].get('path'))!r})",
+                        True, **replay(sc, rec, missing=repr(remaining[0])[:400]))
+            elif api == "pair_verify":
                 # two pair-verify posts, then whatever connection_made(True) re-subscribes
                 if rec["outcome"] == "ok" and len(exs) < 2:
                     add("wrong-request-count:pair_verify", f"pair-verify used {len(exs)} requests, expected 2", False, **replay(sc, rec))
                 asked_why = [pv_shape(i, ex) if i < 2 else None for i, ex in enumerate(exs)]
+                bad = resub_check(exs[2:], rec.get("resub", []))
+                if bad and rec["outcome"] == "ok":
+                    add(f"wrong-request:resubscribe-after-reconnect:{bad}",
+                        f"after '{rec['via']}' the re-subscribe requests of connection_made do not ask for exactly the subscribed "
+                        f"characteristics ({bad}): subscribed {rec.get('resub')!r}"[:400], True,
+                        **replay(sc, rec, reason=bad, subscribed=repr(rec.get("resub"))[:400]))
             else:
                 asked = rec["asked"]
                 if len(exs) != len(asked):
@@ -1101,6 +1317,52 @@ def run(ctx):
                 add(f"{api}:api-model-mismatch", f"{api}: per-aid grouping / subscribe payloads differ from the model "
                     f"({len(rec['requests'])} requests, model {len(model_reqs)})", False, model=ans[:600], **replay(sc, rec),
                     broken="correspondence api_update_subscriptions <-> _update_subscriptions")
+    # --- history level: the model machine run on the session's event history vs the recorded transport calls
+    n_trace = n_trace_req = 0
+    for si, (li, expect, toks) in traces.items():
+        sc, res = scs[si], results[si]
+        out = answers[li].split(" ")
+        n_trace += 1
+        if len(out) != len(expect) + 1:
+            add("trace:model-mismatch:length", f"model run of the session history gave {len(out) - 1} observations for "
+                f"{len(expect)} requests: {answers[li][:200]}", False, events=toks[:60], scenario_json=enc(sc))
+            continue
+        for tok, (kind, x) in zip(out, expect):
+            n_trace_req += 1
+            if kind == "raise":
+                if tok != "raise":
+                    add("trace:model-mismatch:raise", "model writes a request where the implementation raised (no connection)",
+                        False, events=toks[:60], scenario_json=enc(sc))
+                continue
+            cap, rec, qi = x
+            parts = tok.split(":")
+            if parts[0] != "call" or parts[1] != hx(cap.raw):
+                if not rec["oracle"][qi]:
+                    add("trace:model-mismatch:payload", "the model machine, run on the session's history (connect/secure/lost/close/"
+                        "request events), hands a different request to the transport than the implementation did",
+                        False, model=tok[:400], **replay(sc, rec, qi), events=toks[:60])
+                continue
+            if len(cap.calls) != 1:
+                continue                      # already reported as split-write
+            real = res["wire"][cap.conn]["calls"][cap.calls[0]]
+            model_chunks = parts[3].split(",")
+            if cap.secure:
+                got = open_frames(real, res["wire"][cap.conn]["key"], int(parts[2]))
+            else:
+                got = [hx(c) for c in real]
+            if got != model_chunks:
+                add("trace:wire-structure:" + ("secure" if cap.secure else "plain"),
+                    "the single transport call carries the request in a different chunk structure than the model "
+                    "(plain: [request]; secure: [LE16 len, seal(ctr+i, len, chunk_i)] for 1024-byte chunks, counters consecutive)",
+                    False, model_chunks=[c[:80] for c in model_chunks][:8], impl_chunks=[str(c)[:80] for c in (got or [])][:8],
+                    counter_before=parts[2], **replay(sc, rec, qi))
+    cov.extra["resubscribe_requests_checked"] = sum(max(0, len(rec["requests"]) - 2) for res in results for rec in res["records"]
+                                                    if rec["op"][0] == "pair_verify")
+    cov.extra["concurrent_call_groups"] = sum(1 for res in results for rec in res["records"] if rec["op"][0] == "gather")
+    cov.extra["requests_while_disconnected"] = sum(1 for res in results for rec in res["records"] if rec.get("expect_exc"))
+    cov.extra["session_histories_replayed_in_model"] = n_trace
+    cov.extra["session_history_requests"] = n_trace_req
+
     # host header as built by _connect_once, for every host of the grid
     for sc, res in zip(scs, results):
         lp = res["last_peer"]
@@ -1254,13 +1516,34 @@ def run(ctx):
         for host, ex, raw in picks:
             body = "None" if ex["kind"] == "none" else "(Some (%s, %s))" % ("CtJson" if ex["kind"] == "json" else "CtTlv", cb(ex["body"]))
             terms.append("(mkReq %s %s %s %s, %s)" % (ex["method"], cb(ex["target"]), cb(host.encode()), body, cb(raw)))
-        src = ("From Coq Require Import List NArith ZArith Bool.\nFrom AHK Require Import Lib.ByteStr Model.Request.\n"
+        # one short session history through the machine inside Coq: payloads must equal what the extracted driver said
+        sess_src = ""
+        for si, (li, expect, toks) in sorted(traces.items()):
+            if 4 <= len(toks) <= 14 and len(answers[li]) < 6000 and any(t in ("L", "X") for t in toks):
+                evs, flat = [], []
+                for t in toks:
+                    f = t.split(":")
+                    if f[0] == "C":
+                        evs.append("EConnect %s" % cb(unhx(f[1])))
+                    elif f[0] in ("S", "L", "X"):
+                        evs.append({"S": "ESecure", "L": "ELost", "X": "EClose"}[f[0]])
+                    else:
+                        body = "None" if f[3] == "none" else "(Some (%s, %s))" % ("CtJson" if f[3] == "json" else "CtTlv", cb(unhx(f[4])))
+                        evs.append("EReq %s %s %s" % (f[1], cb(unhx(f[2])), body))
+                for tok in answers[li].split(" ")[:-1]:
+                    flat += [255, 255] if tok == "raise" else list(unhx(tok.split(":")[1]))
+                sess_src = ("Eval vm_compute in (beq (List.concat (map (fun o => match obs_payload o with Some p => p | None => [255; 255] end) "
+                            "(snd (run1024 conn_init [" + ";\n ".join(evs) + "])))) " + cb(flat) + ").\n")
+                cov.extra["vm_compute_session_events"] = len(toks)
+                break
+        src = ("From Coq Require Import List NArith ZArith Bool.\nFrom AHK Require Import Lib.ByteStr Model.Request Model.RequestSession.\n"
                "Import ListNotations.\nLocal Open Scope N_scope.\n"
                "Eval vm_compute in (forallb (fun p : req * bytes => beq (render_req (fst p)) (snd p) && "
                "match parse_req (snd p) with Some _ => true | None => false end) [" + ";\n".join(terms) + "]).\n")
+        src += sess_src
         try:
             out = coq_eval(ctx["verif"], "C09", "xcheck", src, timeout=300)
-            if "= true" not in out:
+            if "= true" not in out or "= false" in out:
                 add("extraction:vm-compute-mismatch", "Coq vm_compute of render_req/parse_req disagrees with the extracted driver "
                     "on recorded requests", False, coq_output=out[-600:])
             cov.extra["vm_compute_crosscheck"] = dict(requests=len(picks), result=out.strip()[-40:])
